@@ -265,6 +265,11 @@ def run_property(pid, tier, seed, module_name=None, post=None):
     if missing and not total.incomplete:
         inconclusive.append(f'vacuity guard: outcome classes never reached: {missing}')
     wall = time.time() - t0
+    fam_summary = {}
+    for job, rep in [(j, r) for j in jobs for r in job_reports if r['job'] == j.name]:
+        f = fam_summary.setdefault(job.family, {'jobs': 0, 'completed': 0, 'deepest_completed': None})
+        f['jobs'] += 1
+        if rep.get('status') == 'complete': f['completed'] += 1; f['deepest_completed'] = rep['bound']
     ev = {
         'property_id': pid, 'tier': tier, 'seed': seed, 'level': 'model_checking',
         'coverage': {
@@ -276,7 +281,7 @@ def run_property(pid, tier, seed, module_name=None, post=None):
             'mir_steps': total.steps, 'outcome_classes': total.outcomes, 'witnesses_seen': sorted(total.witnesses),
             'jobs': job_reports,
             'functions_encoded': getattr(mod, 'FUNCTIONS', 'all httparse MIR bodies reachable from the entry points of the listed scenarios (regenerated from /repo by cargo +nightly rustc -Zunpretty=mir) + refmodel MIR'),
-            'bounds': getattr(mod, 'BOUNDS', {}).get(tier, ''), 'outside_bounds': getattr(mod, 'OUTSIDE', ''),
+            'bounds': getattr(mod, 'BOUNDS', {}).get(tier, ''), 'bounds_completed_per_family': fam_summary, 'outside_bounds': getattr(mod, 'OUTSIDE', ''),
             'explanation': getattr(mod, 'EXPLANATION', ''),
             'exhaustive': False,
             'models_trusted': len(models.MODEL_NAMES),
